@@ -55,15 +55,29 @@ def main():
     if len(sys.argv) != 3: print(__doc__); raise SystemExit(2)
     profile, out = sys.argv[1], os.path.abspath(sys.argv[2])
     repo = os.environ.get("RX_REPO", "/repo")
+    os.makedirs(out, exist_ok=True)
+    # Snapshot <repo>/src first and build BOTH sides (oracle library and RV64 back-end) from that one snapshot:
+    # other jobs may be editing the tree while this build runs, and a library from one instant linked with a JIT
+    # from another would make the comparison meaningless.  RX_SNAPSHOT=0 builds straight from <repo>.
+    if os.environ.get("RX_SNAPSHOT", "1") != "0":
+        snap = os.path.join(out, "tree")
+        sh(["rm", "-rf", snap]); os.makedirs(snap)
+        sh(["cp", "-a", os.path.join(repo, "src"), os.path.join(snap, "src")])
+        import hashlib
+        h = hashlib.sha256()
+        for root, dirs, files in os.walk(os.path.join(snap, "src")):
+            dirs.sort()
+            for f in sorted(files): h.update(f.encode()); h.update(open(os.path.join(root, f), "rb").read())
+        print("# building from a snapshot of %s/src taken now: %s (sha256 %s)" % (repo, snap, h.hexdigest()[:16]))
+        repo = snap
     os.environ["RX_REPO"] = repo
     src = os.path.join(repo, "src")
-    os.makedirs(out, exist_ok=True)
     global OBJCOPY, OBJDUMP
     CLANG = tool("clang", "clang-14"); LLD = tool("ld.lld", "ld.lld-14"); OBJCOPY = tool("llvm-objcopy", "llvm-objcopy-14")
     NM = tool("llvm-nm", "llvm-nm-14"); OBJDUMP = tool("llvm-objdump-14", "llvm-objdump")
     import rxbuild
     if os.path.abspath(repo) != "/repo":
-        rxbuild.BUILD = os.path.join(out, "rxbuild")       # never clobber the shared cache with another tree
+        rxbuild.BUILD = os.path.join(out, "rxbuild")       # private objects: never share a cache entry with another tree or another instant
     d = rxbuild.parse_variant(profile)
     defs = rxbuild.defines(d)
 
